@@ -361,6 +361,10 @@ func rdModule(from, to, perPkg int, concs []rdConc, obsOf []map[string]any) erro
 		fmt.Fprintf(&probes, "package %s\n\n// Probes hands the probe program one value of every type of the package.\nfunc Probes() map[int]any {\n\treturn map[int]any{\n", pkg)
 		for j := p; j < min(p+perPkg, to); j++ {
 			pkgOf[j] = pkg
+			if j == p+perPkg/2 {
+				// the second half of the package's types lies below a //line directive (generated parsers, expanded templates)
+				src.WriteString("//line types.y:11\n\n")
+			}
 			src.WriteString(concs[j].Source)
 			src.WriteString("\n")
 			tn := concs[j].Name
